@@ -161,9 +161,15 @@ def run(binary, seed, tier, only=None, workers=None):
     with ThreadPoolExecutor(max_workers=workers or (4 if tier == "quick" else 8)) as ex:
         results = list(ex.map(lambda s: run_history(binary, s, os.path.join(root, "h%03d" % s["index"])), specs))
     fails = [f for r in results for f in r["fails"]]
+    eu_ok = sum(r["successful"] for s, r in zip(specs, results) if s["euclid"])
+    if only is None and specs and not fails and any(s["euclid"] for s in specs) and eu_ok == 0:
+        # every history agreeing on "no stop in reach" would agree for the wrong reason: the Euclidean filter must find stops
+        fails.append(("in the Euclidean walking mode no request of any history was answered with a route or a map: the filter offers no stop "
+                      "although stops lie 8-20 s from the points", dict(level="L3 request histories on the real binary (C13)", seed=seed, tier=tier,
+                                                                          history=specs[0]["index"], why="no successful Euclidean answer", mode="euclidean")))
     if only is None and not fails:
         shutil.rmtree(root, ignore_errors=True)
-    return dict(evaluations=sum(r["evaluations"] for r in results), histories=len(specs), fails=fails,
+    return dict(evaluations=sum(r["evaluations"] for r in results), histories=len(specs), fails=fails, euclidean_successful_requests=eu_ok,
                 euclidean_histories=sum(1 for s in specs if s["euclid"]), router_histories=sum(1 for s in specs if not s["euclid"]),
                 requests=sum(r["requests"] for r in results), successful_requests=sum(r["successful"] for r in results),
                 distinct_answers=sum(r["distinct_answers"] for r in results), wall_s=round(time.time() - t0, 1))
